@@ -34,7 +34,9 @@ REFACTORINGS = [
       (ST, "time.time()", "_now()", -1),
       (SH, "import time\n", "from time import time as _clock\n", 1),
       (SH, "time.time()", "_clock()", -1)]),
-    ('wait-instead-of-kill-communicate', 'C06 C07',
+    # (C06 only: under C07's 'detach' fault - a child that closes its pipes but lives on -
+    # waiting without killing really hangs the parent: that is seeded change C07-4)
+    ('wait-instead-of-kill-communicate', 'C06',
      [(R, "            child.kill()\n            child.communicate()",
        "            child.stdout.close()\n            child.stderr.close()\n"
        "            if child.stdin is not None:\n                child.stdin.close()\n"
